@@ -974,7 +974,70 @@ Section WfLiterals.
 End WfLiterals.
 
 (* ------------------------------------------------------------------------------ *)
-(* Part 6: parameters, calls, statements, tasks, the program                       *)
+(* Part 6: no recursion                                                            *)
+(* ------------------------------------------------------------------------------ *)
+Lemma find_task_nodup : forall l t, NoDup (map t_name l) -> In t l -> find_task (t_name t) l = Some t.
+Proof.
+  induction l as [|x r IH]; intros t Hnd Hin; [destruct Hin|]. cbn [find_task map] in *.
+  inversion Hnd; subst. destruct Hin as [->|Hin]; [rewrite Nat.eqb_refl; reflexivity|].
+  destruct (Nat.eqb (t_name t) (t_name x)) eqn:Hn; [|apply IH; assumption].
+  apply Nat.eqb_eq in Hn. exfalso. apply H1. rewrite <- Hn. apply in_map. exact Hin.
+Qed.
+
+Section WfRecursion.
+  Variable p : program.
+  Variable HWF : WF p.
+  Notation E := (visit_env p).
+
+  Lemma chains_shorter_mono : forall k n, chains_shorter p k n -> chains_shorter p (S k) n.
+  Proof.
+    induction k as [|k IH]; intros n H; [destruct H|]. cbn [chains_shorter] in *.
+    destruct (find_task n (p_tasks p)) as [t|]; [|exact I].
+    eapply Forall_impl; [|exact H]. intros a Ha. apply IH. exact Ha.
+  Qed.
+
+  Lemma wf_calls_of_task : forall n, has_key n (e_tasks E) = true ->
+    exists t, find_task n (p_tasks p) = Some t /\ calls_of_task E n = task_calls t.
+  Proof.
+    intros n Hk. rewrite (wf_has_task p HWF) in Hk. unfold task_names in Hk.
+    assert (Hex : exists t, find_task n (p_tasks p) = Some t).
+    { clear - Hk. induction (p_tasks p) as [|x r IH]; [discriminate|]. cbn [map mem find_task] in *.
+      destruct (Nat.eqb n (t_name x)); [eauto | apply IH; exact Hk]. }
+    destruct Hex as [t Ht]. exists t. split; [exact Ht|].
+    destruct (assoc_indexed_task _ 0 _ _ Ht) as [j Hj].
+    unfold calls_of_task, find_tdef. rewrite (wf_e_tasks p HWF), Hj. reflexivity.
+  Qed.
+
+  (* what can be reached from a task has call chains no longer than the task itself *)
+  Lemma reach_chains : forall f a b k,
+    task_reaches E f a b = true -> chains_shorter p k a -> chains_shorter p k b.
+  Proof.
+    induction f as [|f IH]; intros a b k Hr Hc; cbn [task_reaches] in Hr;
+      apply andb_true_iff in Hr; destruct Hr as [Hk Hr]; apply orb_true_iff in Hr.
+    - destruct Hr as [Hr|Hr]; [|discriminate]. apply Nat.eqb_eq in Hr. subst. exact Hc.
+    - destruct Hr as [Hr|Hr]; [apply Nat.eqb_eq in Hr; subst; exact Hc|].
+      apply existsb_exists in Hr. destruct Hr as (m & Hm & Hr).
+      destruct (wf_calls_of_task a Hk) as (t & Ht & Hcalls). rewrite Hcalls in Hm.
+      destruct k as [|k]; [destruct Hc|]. cbn [chains_shorter] in Hc. rewrite Ht in Hc.
+      rewrite Forall_forall in Hc. specialize (Hc m Hm).
+      apply (IH m b (S k) Hr). apply chains_shorter_mono. exact Hc.
+  Qed.
+
+  Theorem wf_no_recursion : forall tk n f,
+    In tk (p_tasks p) -> In n (task_calls tk) -> task_reaches E f n (t_name tk) = false.
+  Proof.
+    intros tk n f Htk Hn. destruct (task_reaches E f n (t_name tk)) eqn:Hr; [|reflexivity]. exfalso.
+    pose proof HWF as (_ & _ & Hnd & _ & _ & Hch). rewrite Forall_forall in Hch. specialize (Hch tk Htk).
+    revert Hch. generalize (S (length (p_tasks p))) as k.
+    induction k as [|k IH]; intro Hc; [destruct Hc|].
+    cbn [chains_shorter] in Hc. rewrite (find_task_nodup _ _ Hnd Htk) in Hc.
+    rewrite Forall_forall in Hc. specialize (Hc n Hn).
+    apply IH. eapply reach_chains; [exact Hr | exact Hc].
+  Qed.
+End WfRecursion.
+
+(* ------------------------------------------------------------------------------ *)
+(* Part 7: parameters, calls, statements, tasks, the program                       *)
 (* ------------------------------------------------------------------------------ *)
 Section WfStatements.
   Variable p : program.
@@ -1025,12 +1088,11 @@ Section WfStatements.
     intros ti pi lv x t Hw Hs. destruct x as [v|v es|s j]; cbn [check_input_matches param_wt param_access_safe] in *.
     - rewrite (wf_var p HWF tk Htk i), Hw, vtype_eqb_refl. reflexivity.
     - unfold param_path_type in Hw. rewrite (wf_var p HWF tk Htk i).
-      unfold access_safe in Hs. apply andb_true_iff in Hs. destruct Hs as [Hg Hs].
-      rewrite (wf_var p HWF tk Htk i) in Hs.
+      unfold access_safe in Hs. rewrite (wf_var p HWF tk Htk i) in Hs.
       destruct (var_type vars v) as [t0|]; [|discriminate].
-      unfold grammar_path in Hg. destruct es as [|e rest]; [discriminate|]. destruct e; try discriminate.
+      destruct es as [|e rest]; [discriminate|]. destruct e; try discriminate.
       destruct (path_type_struct_head p HWF _ _ _ _ _ Hw) as (s1 & sd1 & -> & Hm).
-      cbn [struct_of_type]. rewrite (models_struct_of_prim p _ _ Hm) in *.
+      rewrite (models_struct_of_prim p _ _ Hm) in *.
       destruct (path_ipm_ok p HWF (length (PF n :: rest)) (PF n :: rest) lv _ t sd1 (PF v) (le_n _) Hw Hm eq_refl Hs)
         as (cur & Hwalk & Hlast).
       rewrite Hwalk. destruct Hlast as [[Hi ->] | [Hi Ha]]; rewrite Hi.
@@ -1049,16 +1111,16 @@ Section WfStatements.
 
   Lemma wf_task_call : forall ti pi lv c,
     call_wf p vars lv c -> forallb (param_access_safe E T) (c_ins c) = true ->
+    In (c_name c) (task_calls tk) ->
     check_task_call E T ti pi c = ok_true.
   Proof.
-    intros ti pi lv c (callee & Hf & Ho & Hl1 & Hl2 & Hins & Houts) Hs. unfold check_task_call.
+    intros ti pi lv c (callee & Hf & Ho & Hl1 & Hl2 & Hins & Houts) Hs Hcall. unfold check_task_call.
     destruct (wf_find_tdef _ _ Hf) as (j & Hfd & Hcin).
     assert (Hk : has_key (c_name c) (e_tasks E) = true) by (unfold has_key; unfold find_tdef in Hfd; rewrite Hfd; reflexivity).
-    rewrite Hk.
+    rewrite Hk. cbn [visit_task td_name]. rewrite (wf_no_recursion p HWF tk _ _ Htk Hcall).
     assert (Hparams : check_call_parameters E T ti pi (c_ins c) (c_outs c) = ok_true).
     { eapply wf_call_parameters; [|exact Ho|exact Hs].
       apply Forall_forall. intros x Hin.
-      (* every actual has the type of its formal *)
       assert (Hex : forall (l1 : list param) (l2 : list (name * vtype)), length l1 = length l2 ->
                 Forall (fun pf => param_wt p vars lv (fst pf) (snd (snd pf))) (combine l1 l2) ->
                 forall x, In x l1 -> exists t, param_wt p vars lv x t).
@@ -1075,8 +1137,7 @@ Section WfStatements.
     - rewrite forall2_all_ok; [reflexivity|].
       eapply Forall_impl; [|exact Houts]. intros oo Hoo. cbn beta. unfold check_output_matches.
       rewrite (wf_td_vars p HWF j callee _ Hcin), Hoo, vtype_eqb_refl. reflexivity.
-    - (* inputs *)
-      assert (Hall : forall (l1 : list param) (l2 : list (name * vtype)),
+    - assert (Hall : forall (l1 : list param) (l2 : list (name * vtype)),
                 forallb (param_access_safe E T) l1 = true ->
                 Forall (fun pf => param_wt p vars lv (fst pf) (snd (snd pf))) (combine l1 l2) ->
                 Forall (fun xy => check_input_matches E T ti pi (fst xy) (snd (snd xy)) = ok_true) (combine l1 l2)).
@@ -1087,51 +1148,62 @@ Section WfStatements.
       apply Hall; assumption.
   Qed.
 
-  (* the statements of the task: rule by rule, under the three shape guards *)
+  Lemma existsb_false_in : forall A (f : A -> bool) l x, existsb f l = false -> In x l -> f x = false.
+  Proof.
+    intros A f l x H Hin. destruct (f x) eqn:Hx; [|reflexivity].
+    assert (existsb f l = true) by (apply existsb_exists; eauto). congruence.
+  Qed.
+
+  Lemma incl_flat_map_in : forall (b : list stmt) x, In x b -> incl (stmt_calls x) (flat_map stmt_calls b).
+  Proof. intros b x Hin n Hn. apply in_flat_map. eauto. Qed.
+
+  (* the statements of the task: rule by rule, under the two shape guards *)
   Lemma wf_check_stmt : forall s lv pi,
     stmt_wf p vars lv s ->
-    stmt_all (expr_safe E T) (param_access_safe E T) s = true ->
-    stmt_exists (string_path_checked p vars) (fun _ => false) lv s = false ->
+    stmt_all expr_index_free limit_index_free (param_access_safe E T) s = true ->
+    stmt_exists (string_path_checked p vars) lv s = false ->
+    incl (stmt_calls s) (task_calls tk) ->
     check_stmt E T pi s = ok_true.
   Proof.
-    intro s. induction s using stmt_ind'; intros lv pi Hw Hs Hg; cbn [check_stmt stmt_wf stmt_all stmt_exists] in *.
+    intro s. induction s using stmt_ind'; intros lv pi Hw Hs Hg Hc; cbn [check_stmt stmt_wf stmt_all stmt_exists stmt_calls] in *.
     - destruct Hw as [Hins Ho]. eapply wf_call_parameters; eassumption.
-    - eapply wf_task_call; eassumption.
+    - eapply wf_task_call; [exact Hw | exact Hs | apply Hc; left; reflexivity].
     - destruct Hw as [_ Hw]. apply forall_from_all_ok. intros j c Hin.
-      rewrite Forall_forall in Hw. rewrite forallb_forall in Hs. eapply wf_task_call; [apply Hw; exact Hin | apply Hs; exact Hin].
+      rewrite Forall_forall in Hw. rewrite forallb_forall in Hs.
+      eapply wf_task_call; [apply Hw; exact Hin | apply Hs; exact Hin | apply Hc; apply in_map; exact Hin].
     - destruct Hw as (He & _ & Hb). apply go_wf_forall in Hb.
       apply andb_true_iff in Hs. destruct Hs as [Hsb Hse].
       apply orb_false_iff in Hg. destruct Hg as [Hge Hgb].
       rewrite forall_from_all_ok.
       + rewrite (wf_check_expression p HWF tk Htk i _ lv e TyBool He Hse Hge). reflexivity.
       + intros j x Hin. rewrite Forall_forall in H, Hb. rewrite forallb_forall in Hsb.
-        eapply H; [exact Hin | apply Hb; exact Hin | apply Hsb; exact Hin|].
-        destruct (stmt_exists (string_path_checked p vars) (fun _ => false) lv x) eqn:Hx; [|reflexivity].
-        assert (existsb (stmt_exists (string_path_checked p vars) (fun _ => false) lv) b = true)
-          by (apply existsb_exists; eauto). congruence.
-    - destruct Hw as [_ Hw]. destruct par.
-      + destruct Hw as (c & -> & _). reflexivity.
+        eapply H; [exact Hin | apply Hb; exact Hin | apply Hsb; exact Hin | eapply existsb_false_in; eassumption|].
+        eapply incl_tran; [apply incl_flat_map_in; exact Hin | exact Hc].
+    - destruct Hw as [Hlim Hw]. destruct par.
+      + destruct Hw as (c & -> & Hcw). apply andb_true_iff in Hs. destruct Hs as [Hsl Hsc].
+        rewrite (wf_check_limit p HWF tk Htk i _ lv l Hlim Hsl).
+        rewrite (wf_task_call _ (pi ++ [0]) (v :: lv) c Hcw Hsc); [reflexivity|].
+        apply Hc. cbn. left. reflexivity.
       + destruct Hw as [_ Hb]. apply go_wf_forall in Hb.
-        apply forall_from_all_ok. intros j x Hin. rewrite Forall_forall in H, Hb. rewrite forallb_forall in Hs.
-        eapply H; [exact Hin | apply Hb; exact Hin | apply Hs; exact Hin|].
-        destruct (stmt_exists (string_path_checked p vars) (fun _ => false) (v :: lv) x) eqn:Hx; [|reflexivity].
-        assert (existsb (stmt_exists (string_path_checked p vars) (fun _ => false) (v :: lv)) b = true)
-          by (apply existsb_exists; eauto). congruence.
+        apply andb_true_iff in Hs. destruct Hs as [Hsl Hsb].
+        rewrite (wf_check_limit p HWF tk Htk i _ lv l Hlim Hsl).
+        rewrite forall_from_all_ok; [reflexivity|].
+        intros j x Hin. rewrite Forall_forall in H, Hb. rewrite forallb_forall in Hsb.
+        eapply H; [exact Hin | apply Hb; exact Hin | apply Hsb; exact Hin | eapply existsb_false_in; eassumption|].
+        eapply incl_tran; [apply incl_flat_map_in; exact Hin | exact Hc].
     - destruct Hw as (He & _ & Hp & Hf). apply go_wf_forall in Hp. apply go_wf_forall in Hf.
       apply andb_true_iff in Hs. destruct Hs as [Hs Hse]. apply andb_true_iff in Hs. destruct Hs as [Hsp Hsf].
       apply orb_false_iff in Hg. destruct Hg as [Hg Hgf]. apply orb_false_iff in Hg. destruct Hg as [Hge Hgp].
       rewrite forall_from_all_ok; [rewrite forall_from_all_ok|].
       + rewrite (wf_check_expression p HWF tk Htk i _ lv e TyBool He Hse Hge). reflexivity.
       + intros j x Hin. rewrite Forall_forall in H0, Hf. rewrite forallb_forall in Hsf.
-        eapply H0; [exact Hin | apply Hf; exact Hin | apply Hsf; exact Hin|].
-        destruct (stmt_exists (string_path_checked p vars) (fun _ => false) lv x) eqn:Hx; [|reflexivity].
-        assert (existsb (stmt_exists (string_path_checked p vars) (fun _ => false) lv) f = true)
-          by (apply existsb_exists; eauto). congruence.
+        eapply H0; [exact Hin | apply Hf; exact Hin | apply Hsf; exact Hin | exact (existsb_false_in _ _ _ _ Hgf Hin)|].
+        eapply incl_tran; [apply incl_flat_map_in; exact Hin|].
+        eapply incl_tran; [apply incl_appr; apply incl_refl | exact Hc].
       + intros j x Hin. rewrite Forall_forall in H, Hp. rewrite forallb_forall in Hsp.
-        eapply H; [exact Hin | apply Hp; exact Hin | apply Hsp; exact Hin|].
-        destruct (stmt_exists (string_path_checked p vars) (fun _ => false) lv x) eqn:Hx; [|reflexivity].
-        assert (existsb (stmt_exists (string_path_checked p vars) (fun _ => false) lv) p0 = true)
-          by (apply existsb_exists; eauto). congruence.
+        eapply H; [exact Hin | apply Hp; exact Hin | apply Hsp; exact Hin | exact (existsb_false_in _ _ _ _ Hgp Hin)|].
+        eapply incl_tran; [apply incl_flat_map_in; exact Hin|].
+        eapply incl_tran; [apply incl_appl; apply incl_refl | exact Hc].
   Qed.
 End WfStatements.
 
@@ -1149,62 +1221,24 @@ Proof.
       unfold check_task. rewrite Hi, Ho.
       assert (Hst : check_statements (visit_env p) (snd kv) = ok_true).
       { destruct (in_e_tasks p HWF kv Hin) as (i & tk & Htk & Heq).
-        unfold prog_all in Hsafe. rewrite forallb_forall in Hsafe. specialize (Hsafe kv Hin).
-        rewrite Heq in *. unfold task_all in Hsafe. cbn [visit_task td_body] in Hsafe.
+        unfold g_array_elements, prog_all in Hsafe. rewrite forallb_forall in Hsafe. specialize (Hsafe kv Hin).
+        rewrite Heq in *. cbn [visit_task td_body] in Hsafe.
         unfold check_statements. cbn [visit_task td_body]. apply forall_from_all_ok. intros k s Hs.
         pose proof HWF as HWF'. destruct HWF' as (_ & _ & _ & _ & Hts & _). rewrite Forall_forall in Hts.
         destruct (Hts tk Htk) as (_ & _ & _ & _ & Hb & _). rewrite Forall_forall in Hb.
         rewrite forallb_forall in Hsafe.
-        eapply (wf_check_stmt p); [assumption | exact Htk | apply Hb; exact Hs | apply Hsafe; exact Hs|].
-        destruct (stmt_exists (string_path_checked p (vars_of_task tk)) (fun _ => false) [] s) eqn:Hx; [|reflexivity].
-        exfalso. unfold sh_string_eq, tasks_exist in Hstr.
-        assert (existsb (fun t => existsb (stmt_exists (string_path_checked p (vars_of_task t)) (fun _ => false) [])
-                                          (t_body t)) (p_tasks p) = true).
-        { apply existsb_exists. exists tk. split; [exact Htk|]. apply existsb_exists. eauto. }
-        congruence. }
+        eapply (wf_check_stmt p); [assumption | exact Htk | apply Hb; exact Hs | apply Hsafe; exact Hs | |].
+        - destruct (stmt_exists (string_path_checked p (vars_of_task tk)) [] s) eqn:Hx; [|reflexivity].
+          exfalso. unfold sh_string_eq, tasks_exist in Hstr.
+          assert (existsb (fun t => existsb (stmt_exists (string_path_checked p (vars_of_task t)) []) (t_body t))
+                          (p_tasks p) = true).
+          { apply existsb_exists. exists tk. split; [exact Htk|]. apply existsb_exists. eauto. }
+          congruence.
+        - intros n Hn. unfold task_calls. apply in_flat_map. eauto. }
       rewrite Hst. reflexivity. }
     unfold check_tasks. rewrite Htasks. rewrite (wf_has_start_task p HWF). reflexivity. }
   rewrite Hvp. reflexivity.
 Qed.
-
-(* the guard follows from the guards already used for C16 and the D20 shape predicate *)
-Lemma stmt_all_conj : forall (fe1 fe2 : expr -> bool) (fp1 fp2 : param -> bool) s,
-  stmt_all fe1 fp1 s = true -> stmt_all fe2 fp2 s = true ->
-  stmt_all (fun e => fe1 e && fe2 e) (fun x => fp1 x && fp2 x) s = true.
-Proof.
-  intros fe1 fe2 fp1 fp2 s. induction s using stmt_ind'; intros H1 H2; cbn [stmt_all] in *.
-  - apply forallb_forall. intros x Hin. rewrite forallb_forall in H1, H2. rewrite (H1 x Hin), (H2 x Hin). reflexivity.
-  - unfold call_all in *. apply forallb_forall. intros x Hin. rewrite forallb_forall in H1, H2.
-    rewrite (H1 x Hin), (H2 x Hin). reflexivity.
-  - apply forallb_forall. intros c Hc. rewrite forallb_forall in H1, H2. specialize (H1 c Hc). specialize (H2 c Hc).
-    unfold call_all in *. apply forallb_forall. intros x Hin. rewrite forallb_forall in H1, H2.
-    rewrite (H1 x Hin), (H2 x Hin). reflexivity.
-  - apply andb_true_iff in H1, H2. destruct H1 as [H1 H1e], H2 as [H2 H2e]. rewrite H1e, H2e, andb_true_r.
-    apply forallb_forall. intros x Hin. rewrite Forall_forall in H. rewrite forallb_forall in H1, H2. apply H; auto.
-  - destruct par; [reflexivity|].
-    apply forallb_forall. intros x Hin. rewrite Forall_forall in H. rewrite forallb_forall in H1, H2. apply H; auto.
-  - apply andb_true_iff in H1, H2. destruct H1 as [H1 H1e], H2 as [H2 H2e]. rewrite H1e, H2e, andb_true_r.
-    apply andb_true_iff in H1, H2. destruct H1 as [H1p H1f], H2 as [H2p H2f].
-    apply andb_true_iff. split.
-    + apply forallb_forall. intros x Hin. rewrite Forall_forall in H. rewrite forallb_forall in H1p, H2p. apply H; auto.
-    + apply forallb_forall. intros x Hin. rewrite Forall_forall in H0. rewrite forallb_forall in H1f, H2f. apply H0; auto.
-Qed.
-
-Lemma crash_free_c11_guard : forall p, crash_free p = true -> sh_string_eq p = false -> c11_guard p = true.
-Proof.
-  intros p Hcf Hs. unfold c11_guard. rewrite Hs, andb_true_r.
-  unfold crash_free in Hcf. apply andb_true_iff in Hcf. destruct Hcf as [Hcf _].
-  apply andb_true_iff in Hcf. destruct Hcf as [H1 H2].
-  unfold g_operands, g_access, prog_all in *. apply forallb_forall. intros kv Hin.
-  rewrite forallb_forall in H1, H2. specialize (H1 kv Hin). specialize (H2 kv Hin).
-  unfold task_all in *. apply forallb_forall. intros s Hs'.
-  rewrite forallb_forall in H1, H2.
-  exact (stmt_all_conj _ _ _ _ s (H1 s Hs') (H2 s Hs')).
-Qed.
-
-Theorem wf_accepted_crash_free : forall p,
-  WF p -> crash_free p = true -> sh_string_eq p = false -> validate p = Ok [].
-Proof. intros p HWF Hcf Hs. apply wf_accepted_under_guard; [exact HWF | apply crash_free_c11_guard; assumption]. Qed.
 
 (* full statement of C11 *)
 Definition C11_wf_accepted : Prop := forall p, WF p -> validate p = Ok [].
